@@ -52,6 +52,7 @@ type Frame struct {
 	entryState *State
 	predPC     map[edgeKey]*Term
 	iterByLoop map[int]*IterVal
+	loopMeasure map[*ssa.BasicBlock]*Term
 }
 
 type retPoint struct {
@@ -240,6 +241,9 @@ func (e *Engine) VerifyFunction(fn *ssa.Function) (ctx *FnCtx, err error) {
 			ctx.addFact(st, r)
 		}
 	}
+	if fr.fc != nil && fr.fc.Decr != nil {
+		ctx.entryMeasure = ctx.evalGhost(st, e.ld.GhostFunc(fr.fc.Decr.Fn), termArgs(fr.params))
+	}
 	fr.entryState = st.clone()
 	ctx.entryFacts = len(ctx.facts)
 	ctx.entryWM = fr.entryState.wm
@@ -354,6 +358,9 @@ func (c *FnCtx) checkPkgInv(st *State, pos token.Pos, where string) {
 // checkReturn emits postcondition obligations at one return point.
 func (c *FnCtx) checkReturn(fr *Frame, rp retPoint) {
 	e := c.eng
+	// vacuity guard: this return point should be reachable under the accumulated assumptions
+	c.retCovers = append(c.retCovers, &Obligation{Name: fmt.Sprintf("%s:cover:ret%d", c.top.RelString(c.top.Pkg.Pkg), len(c.retCovers)), Kind: "cover",
+		Func: c.top.RelString(c.top.Pkg.Pkg), Goal: e.ts.Not(rp.st.pc), NFacts: len(c.facts), Ctx: c, Src: "return point reachable"})
 	if fr.fc == nil {
 		if c.wroteGlobals(fr, rp.st) {
 			c.checkPkgInv(rp.st, rp.pos, "return")
@@ -709,6 +716,12 @@ func (c *FnCtx) enterLoop(fr *Frame, h *ssa.BasicBlock, ord int, st *State) *Sta
 	}
 	// 4. assume invariants
 	c.loopInvs(fr, h, ord, lc, out, "assume")
+	if lc != nil && lc.Decr != nil {
+		if fr.loopMeasure == nil {
+			fr.loopMeasure = map[*ssa.BasicBlock]*Term{}
+		}
+		fr.loopMeasure[h] = c.loopMeasureAt(fr, lc, out)
+	}
 	return out
 }
 
@@ -719,22 +732,59 @@ func (c *FnCtx) backEdge(fr *Frame, h *ssa.BasicBlock, st *State, from *ssa.Basi
 		lc = fr.fc.Loops[ord]
 	}
 	c.loopInvs(fr, h, ord, lc, st, "inv-step")
+	if lc != nil && lc.Decr != nil && fr.loopMeasure[h] != nil {
+		ts := c.eng.ts
+		m0 := fr.loopMeasure[h]
+		m1 := c.loopMeasureAt(fr, lc, st)
+		c.addObl(st, "variant", fmt.Sprintf("loop%d", ord), ts.And(ts.Le(ts.Int(0), m0), ts.Lt(m1, m0)), headPos(h), "decreases "+lc.Decr.Raw)
+	}
+}
+
+func (c *FnCtx) loopMeasureAt(fr *Frame, lc *LoopContract, st *State) *Term {
+	gf := c.eng.ld.GhostFunc(lc.Decr.Fn)
+	if gf == nil {
+		unsupported("decreases function %s missing", lc.Decr.Fn)
+	}
+	args := termArgs(fr.params)
+	for _, o := range fr.fc.Olds {
+		args = append(args, fr.olds[o.Name])
+	}
+	for _, lr := range lc.Decr.Locals {
+		args = append(args, c.localValue(fr, st, lr))
+	}
+	c.curFrame = fr
+	return c.evalGhost(st, gf, args)
 }
 
 // loopInvs evaluates the loop's invariants in st and asserts (mode inv-init / inv-step) or assumes them.
 func (c *FnCtx) loopInvs(fr *Frame, h *ssa.BasicBlock, ord int, lc *LoopContract, st *State, mode string) {
-	// automatic (checked like any other) invariant of compiler-generated slice range loops: rangeindex >= -1
+	// automatic (checked like any other) invariant of compiler-generated slice range loops:
+	//   rangeindex >= -1  and  (rangeindex == -1 or rangeindex < len)
 	if h.Comment == "rangeindex.loop" {
 		ts := c.eng.ts
+		var bound *Term
+		for _, in := range h.Instrs {
+			if bo, ok := in.(*ssa.BinOp); ok && bo.Op == token.LSS {
+				if v, ok := fr.regs[bo.Y]; ok {
+					if t, ok := v.(*Term); ok {
+						bound = t
+					}
+				}
+			}
+		}
 		for _, in := range h.Instrs {
 			if sto, ok := in.(*ssa.Store); ok {
 				if a, ok := sto.Addr.(*ssa.Alloc); ok && a.Comment == "rangeindex" {
 					if cell, ok := fr.cells[a]; ok {
-						g := ts.Ge(c.getCell(st, cell), ts.Int(-1))
+						v := c.getCell(st, cell)
+						g := ts.Ge(v, ts.Int(-1))
+						if bound != nil {
+							g = ts.And(g, ts.Or(ts.Eq(v, ts.Int(-1)), ts.Lt(v, bound)))
+						}
 						if mode == "assume" {
 							c.addFact(st, g)
 						} else {
-							c.addObl(st, mode, fmt.Sprintf("loop%d#auto-rangeindex", ord), g, headPos(h), "rangeindex >= -1")
+							c.addObl(st, mode, fmt.Sprintf("loop%d#auto-rangeindex", ord), g, headPos(h), "-1 <= rangeindex < len")
 						}
 					}
 				}
